@@ -273,8 +273,13 @@ func execReceiver(input string) string {
 		}
 	}
 	// several senders (nodes and the application each hold one) write to the same topic
-	senders := []message.Sender{message.VerifNewKafkaMessageSender(kafkaproducer.VerifNewKafkaProducer(sp, topic), topic),
-		message.VerifNewKafkaMessageSender(kafkaproducer.VerifNewKafkaProducer(sp, topic), topic)}
+	kp0, kp1 := kafkaproducer.VerifNewKafkaProducer(sp, topic), kafkaproducer.VerifNewKafkaProducer(sp, topic)
+	// the producers' delivery-report loops run, as in production: the scripted client reports a failed delivery for some
+	// records (below); a report is information for the log - it must not put anything on the topic
+	kp0.VerifStartEventsReceiver()
+	kp1.VerifStartEventsReceiver()
+	defer close(sp.events)
+	senders := []message.Sender{message.VerifNewKafkaMessageSender(kp0, topic), message.VerifNewKafkaMessageSender(kp1, topic)}
 	var delivered []string
 	recvClient := newScriptedConsumer()
 	recv := message.VerifNewKafkaMessageReceiver(recvClient, topic, np, func(m message.Message) []error {
@@ -364,6 +369,13 @@ func execReceiver(input string) string {
 						pre = fmt.Sprintf("K=%s W=%s:%s:%s:%s ", hx(km.Key), hx([]byte(w.Message.MessageType)), hx([]byte(w.Message.Key)), hx(w.Message.Payload), b01(w.Acknowledged))
 					}
 					recv.VerifProcessEvent(&kafka.Message{TopicPartition: kafka.TopicPartition{Topic: &topic}, Key: km.Key, Value: km.Value})
+					if (len(km.Value)+k)%4 == 0 {
+						// the broker reports this record as not delivered (after later records of the run were queued)
+						failed := *km
+						failed.TopicPartition.Error = errors.New("scripted delivery failure")
+						sp.events <- &failed
+						time.Sleep(2 * time.Millisecond)
+					}
 				} else {
 					pre = "norecord "
 				}
